@@ -529,6 +529,12 @@ func (e *Engine) atomicIntrinsic(st *State, fr *Frame, x *ssa.Call, name string,
 		return v
 	}
 	ii, isInt := intOf(ct)
+	if isBool {
+		// representation invariant of atomic.Bool: the underlying word is 0 or 1 (every method stores one of them)
+		if cv, ok := e.load(st, cell).(VInt); ok {
+			st.assume(Le(cv.T, One))
+		}
+	}
 	switch method {
 	case "Load":
 		return []Val{fromCell(e.load(st, cell))}, true
